@@ -368,6 +368,7 @@ fn ss_sim(n: usize, shape: usize) -> SetSpeedTrainSim {
 pub fn subjects() -> Vec<&'static str> {
     vec![
         "FuelConverter", "FuelConverter:stepped", "Generator", "ElectricDrivetrain", "ReversibleEnergyStorage", "Locomotive:conv", "Locomotive:bel", "Locomotive:hybrid", "Locomotive:dummy", "Locomotive:conv:stepped", "Consist", "Consist:stepped", "PowerTrace", "SpeedTrace", "RailVehicle", "TrainConfig", "TrainSimBuilder",
+        "LocomotiveSimulationVec:stepped", "SpeedLimitTrainSimVec", "Link", "SpeedSet", "Location", "TimedLinkPath", "LinkPath", "TrainRes", "BrakingPoints", "ReversibleEnergyStorage:stepped", "Locomotive:hybrid:stepped",
         "TrainParams", "PathTpc:unfinished", "PathTpc:finished", "FricBrake", "Network", "EstTimeNet", "TimedPath", "SetSpeedTrainSim:default", "SpeedLimitTrainSim:valid", "LocomotiveSimulation:0", "LocomotiveSimulation:1", "LocomotiveSimulation:2", "LocomotiveSimulation:3", "LocomotiveSimulation:4", "ConsistSimulation:0", "ConsistSimulation:1", "ConsistSimulation:2", "ConsistSimulation:3", "ConsistSimulation:4", "SetSpeedTrainSim:0",
         "SetSpeedTrainSim:1", "SetSpeedTrainSim:2", "SpeedLimitTrainSim:0", "SpeedLimitTrainSim:1", "SpeedLimitTrainSim:2",
     ]
@@ -429,6 +430,34 @@ pub fn run_case(c: &Case, n_steps: usize, checks: &mut u64) -> (Fails, u64) {
         "TrainConfig" => obj!(train_config(&train_spec(false))),
         "TrainSimBuilder" => obj!(builder(&train_spec(false), Some(("A", "B")), Some(InitTrainState::new(Some(3.0 * uc::S), Some(400.0 * uc::M), Some(0.0 * uc::MPS))), Some(1))),
         "TrainParams" => obj!(TrainParams::valid()),
+        // further exported types (round 3): batch containers, track pieces, timed / plain link paths, the resistance and
+        // braking-point parts of a prepared speed-limited simulation, the stepped powertrain variants
+        "LocomotiveSimulationVec:stepped" => obj!({
+            let mut v = altrios_core::consist::locomotive::loco_sim::LocomotiveSimulationVec(vec![
+                LocomotiveSimulation::new(Locomotive::default(), power_trace(4, 0), Some(1)),
+                LocomotiveSimulation::new(Locomotive::default_battery_electric_loco(), power_trace(6, 1), Some(2)),
+            ]);
+            let _ = v.walk(false);
+            v
+        }),
+        "SpeedLimitTrainSimVec" => obj!(altrios_core::train::SpeedLimitTrainSimVec(vec![sl_sim(0), sl_sim(1)])),
+        "Link" => obj!(simple_net().0[1].clone()),
+        "SpeedSet" => obj!(simple_net().0[1].speed_sets.values().next().cloned().unwrap_or_default()),
+        "Location" => obj!(location("A", 1)),
+        "TimedLinkPath" => obj!(altrios_core::train::TimedLinkPath(vec![altrios_core::train::LinkIdxTime::new(lidx(1), 0.0 * uc::S), altrios_core::train::LinkIdxTime::new(lidx(2), 61.5 * uc::S)])),
+        "LinkPath" => obj!(altrios_core::track::LinkPath(vec![lidx(1), lidx(2)])),
+        "TrainRes" => obj!(sl_sim(0).train_res.clone()),
+        "BrakingPoints" => obj!(sl_sim(2).braking_points.clone()),
+        "ReversibleEnergyStorage:stepped" => obj!({
+            let mut sim = LocomotiveSimulation::new(Locomotive::default_battery_electric_loco(), power_trace(5, 1), Some(1));
+            let _ = sim.walk();
+            sim.loco_unit.reversible_energy_storage().unwrap().clone()
+        }),
+        "Locomotive:hybrid:stepped" => obj!({
+            let mut sim = LocomotiveSimulation::new(Locomotive::default_hybrid_electric_loco(), power_trace(5, 0), Some(1));
+            let _ = sim.walk();
+            sim.loco_unit
+        }),
         "PathTpc:unfinished" => obj!({
             let mut p = PathTpc::new(train_params(200.0, 20.0));
             p.extend(&simple_net().0, &[lidx(1), lidx(2)]).unwrap();
@@ -507,7 +536,7 @@ impl Prop for C17 {
         "fault_enumeration"
     }
     fn rule(&self, tier: Tier) -> String {
-        format!("E-CKPT: {} catalogue entries (the four components default and stepped, Locomotive conv/BEL/hybrid/dummy, Consist default and stepped, PowerTrace, SpeedTrace, RailVehicle, TrainConfig, TrainSimBuilder, TrainParams, PathTpc unfinished/finished, FricBrake, Network, EstTimeNet, timed path, SetSpeedTrainSim::default, SpeedLimitTrainSim::valid, and three run shapes each of LocomotiveSimulation / ConsistSimulation / SetSpeedTrainSim / SpeedLimitTrainSim, plus two hybrid-unit shapes each of LocomotiveSimulation / ConsistSimulation) x formats {{yaml, json, bin}} x {{string/bytes API, to_file/from_file onto a path that already holds a longer file}} x EVERY step index 0..{} of the runs (0..65 for the hybrid shapes in the thorough tier: past the hybrid controller's 60-step re-optimisation interval) as the checkpoint position (checkpoint = crash point). Oracle: save and load succeed, load(save(x)) == load(save(load(save(x)))), the reloaded object describes the same object, and the run resumed from the reloaded copy reproduces every remaining step and the final state (bit-exact for yaml/bin, 1e-9 relative for json). distinct_nontrivial = distinct (subject, format, outcome class) signatures.", subjects().len(), n_steps(tier))
+        format!("E-CKPT: {} catalogue entries (the four components default and stepped, Locomotive conv/BEL/hybrid/dummy, Consist default and stepped, PowerTrace, SpeedTrace, RailVehicle, TrainConfig, TrainSimBuilder, LocomotiveSimulationVec (walked), SpeedLimitTrainSimVec, Link, SpeedSet, Location, TimedLinkPath, LinkPath, TrainRes and BrakingPoints of a prepared run, stepped battery and stepped hybrid unit, TrainParams, PathTpc unfinished/finished, FricBrake, Network, EstTimeNet, timed path, SetSpeedTrainSim::default, SpeedLimitTrainSim::valid, and three run shapes each of LocomotiveSimulation / ConsistSimulation / SetSpeedTrainSim / SpeedLimitTrainSim, plus two hybrid-unit shapes each of LocomotiveSimulation / ConsistSimulation) x formats {{yaml, json, bin}} x {{string/bytes API, to_file/from_file onto a path that already holds a longer file}} x EVERY step index 0..{} of the runs (0..65 for the hybrid shapes in the thorough tier: past the hybrid controller's 60-step re-optimisation interval) as the checkpoint position (checkpoint = crash point). Oracle: save and load succeed, load(save(x)) == load(save(load(save(x)))), the reloaded object describes the same object, and the run resumed from the reloaded copy reproduces every remaining step and the final state (bit-exact for yaml/bin, 1e-9 relative for json). distinct_nontrivial = distinct (subject, format, outcome class) signatures.", subjects().len(), n_steps(tier))
     }
     fn assumptions(&self) -> Vec<String> {
         vec![
